@@ -1,4 +1,5 @@
 import UtilModel.Core.LTSHash
+import UtilModel.Core.LTSComplete
 import UtilModel.Codec.Props
 /-!
 # Codec — end-to-end transfer
@@ -13,5 +14,25 @@ theorem C19_accepted (cap fuel : Nat) (h : List Codec.Obs)
     (ha : Codec.model.accepts cap fuel h = true) : Codec.monC19.accepts h = true :=
   accepted_satisfies Codec.model (fun h => Codec.monC19.accepts h = true)
     Codec.C19_obs cap fuel h ha
+
+end UtilModel
+
+/-! ## completeness of the candidate lists — a REJECT is about the model -/
+namespace UtilModel
+
+/-- every event of the codec model is its own observable: there are no internal events, and
+`evsOf s o = [o]` is the only event showing `o` -/
+theorem complete_codec : Codec.model.Complete :=
+  ⟨fun _ _ _ _ ho => by simp [Codec.model] at ho,
+   fun _ e _ o _ ho => by
+     simp only [Codec.model, Option.some.injEq] at ho
+     subst ho; simp [Codec.model]⟩
+
+/-- **A REJECT of the codec correspondence is about the model** (list-indexed checker, `mkEntry`). -/
+theorem reject_sound_codec (cap fuel : Nat) (h : List Codec.Obs) (i : Nat)
+    (hfail : (Codec.model.accRun cap fuel [Codec.model.init] h 0 false 1).failedAt = some i)
+    (htr : (Codec.model.accRun cap fuel [Codec.model.init] h 0 false 1).truncated = false) :
+    ¬ ∃ es s, Codec.model.run Codec.model.init es = some s ∧ es.filterMap Codec.model.obs = h :=
+  reject_sound Codec.model complete_codec cap fuel h i hfail htr
 
 end UtilModel
